@@ -617,6 +617,9 @@ void parallel_for(
   }
 
   if (isStatic) {
+    // Without waiting, running the tail here would use the first state object concurrently with the
+    // chunk that owns it (and exceed maxThreads); hand it to that chunk's task instead.
+    bool tailInTask = hasTail && !options.wait;
     detail::parallel_for_staticImpl(
         taskSet,
         states,
@@ -626,8 +629,12 @@ void parallel_for(
         static_cast<ssize_t>(maxThreads),
         options.wait,
         options.reuseExistingState,
-        granularity);
-    runTail();
+        granularity,
+        tailInTask,
+        range.end);
+    if (!tailInTask) {
+      runTail();
+    }
     return;
   }
 
